@@ -652,7 +652,11 @@ impl Arena {
             lemma_wf_frame(self.av(), s0, st@, s0.allocated, self.cap as int);
           }
 //@before 1 /let mut i = 0;/
-    proof { lemma_pick_policy(self.av(), s0, padded); }
+    proof {
+      lemma_pick_policy(self.av(), s0, padded);
+      assert(pad_of::<T>() <= u32::MAX as int);
+      assert(padded as int == pad_of::<T>() + extra as int);
+    }
 //@loop 2
       invariant
         st@ == s0, s0 == old(st)@, wf(self.av(), s0), !self.ro, s0.writable,
@@ -717,6 +721,8 @@ impl Arena {
 //@@end
 
 } // impl Arena
+
+//@@include wrappers_sync.inc
 
 } // verus!
 fn main() {}
